@@ -216,9 +216,12 @@ def engine_obs_bytes(s):
     return bytes.fromhex(s)
 
 
-def native_run(binp, tape, timeout=10.0):
+def native_run(binp, tape, timeout=10.0, confirm_frozen=False):
     """Returns dict(status, msg, obs, out). status: done | assert | assume | panic | hang | error"""
     env = dict(os.environ, VERIF_TAPE=tape)
+    if confirm_frozen:
+        # the harness then also compares a digest of the package-level variables before/after
+        env["VERIF_CONFIRM_FROZEN"] = "1"
     try:
         r = subprocess.run([binp, "-test.run", "^TestVerifReplay$", "-test.timeout", "0"], env=env, capture_output=True,
                            timeout=timeout, cwd=os.path.dirname(binp))
@@ -349,7 +352,7 @@ def decode_inputs(inputs):
         v = iv["val"]
         if k == "i" and v >= 1 << 63:
             v -= 1 << 64
-        parts.append({"p": "bool", "i": "int", "c": "choice", "f": "f64bits", "m": "order", "u": "u32", "r": "rune", "e": "env", "s": "sched"}[k] + "=" + str(v))
+        parts.append({"p": "bool", "i": "int", "c": "choice", "f": "f64bits", "m": "order", "u": "u32", "r": "rune", "e": "env", "s": "sched", "q": "runq"}[k] + "=" + str(v))
     flush()
     return " ".join(parts)
 
@@ -486,7 +489,7 @@ def run_check(pid, tier):
                 vi, v = item
                 tape = os.path.join(tmp, "v_%d_%d.tape" % (id(j) % 100000, vi))
                 write_tape(tape, j.harness, v["args"], v["inputs"])
-                order = any(iv["kind"] in ("m", "s") for iv in (v["inputs"] or []))
+                order = any(iv["kind"] in ("m", "s", "q") for iv in (v["inputs"] or []))
                 confirmed, nr = False, None
                 if binp:
                     if v["kind"] == "race":
@@ -498,7 +501,8 @@ def run_check(pid, tier):
                                 break
                     elif v["kind"] in ("steps", "deadlock"):
                         nr = native_run(binp, tape, timeout=j.hang_timeout)
-                        confirmed = nr["status"] == "hang"
+                        # (unbounded recursion ends natively in a fatal stack overflow instead of a hang)
+                        confirmed = nr["status"] == "hang" or (nr["status"] == "panic" and "stack overflow" in (nr["msg"] + nr["out"]))
                     elif order:
                         for _ in range(max(j.order_repeats, 200)):
                             nr = native_run(binp, tape)
@@ -506,7 +510,7 @@ def run_check(pid, tier):
                                 confirmed = True
                                 break
                     else:
-                        nr = native_run(binp, tape)
+                        nr = native_run(binp, tape, confirm_frozen=(v["kind"] == "frozen-write"))
                         if v["kind"] == "assert":
                             confirmed = nr["status"] == "assert" and nr["msg"] == v["msg"]
                         elif v["kind"] == "panic":
@@ -614,7 +618,10 @@ def setup():
             nr = native_run(binp, tape, timeout=8.0)
             if nr["status"] != "done":
                 raise MachineryError("select model self test: native run disagrees: %s %s" % (nr["status"], nr["msg"]))
-        sys.stderr.write("race tracker and select model self tests ok\n")
+        res = run_gosym(Job("parse", "H_wgSelftest", "0..3", workers=2), ov, tmp)
+        if res["violations"] or res["unsupported"] or res["paths"] < 7:
+            raise MachineryError("WaitGroup/atomic model self test failed: %s" % (res["violations"] or res.get("unsupported_reasons")))
+        sys.stderr.write("race tracker, select and WaitGroup model self tests ok\n")
     finally:
         shutil.rmtree(tmp, ignore_errors=True)
     return 0
